@@ -24,6 +24,7 @@ THEOREMS = [
     "TornadoModel.C26.served_inside_spec",
     "TornadoModel.C26.default_file_denotes",
     "TornadoModel.C26.handle_inside_spec",
+    "TornadoModel.C26.handle_redirect_inside_spec",
     "TornadoModel.C26.handle_outcome_cases",
 ]
 TRUSTED = [
@@ -58,7 +59,7 @@ CLAUSES = {
         "normalized path) + normpath_no_dotdot/absolutePath_normalized (that path has no '..') + prefix_is_containment / "
         "root_test_is_containment (for an absolute root other than '/': string test <=> Spec.inside component-wise, same number of leading "
         "slashes); the oracle additionally applies Spec.inside to every recorded filesystem query",
-    "including the default file of a directory": "served_inside_spec / handle_inside_spec (every looked-at and opened path, a or join(a, default_filename), "
+    "including the default file of a directory": "served_inside_spec / handle_inside_spec / handle_redirect_inside_spec (every looked-at and opened path, a or join(a, default_filename), "
         "satisfies Spec.inside root, for a plain default_filename) + join_name_inside + default_file_denotes (the joined path denotes "
         "the entry default_filename of the directory the URL denotes)",
     "everything else yields 403 or 404": "outside_root_uniform_403 (403 before any filesystem query, for every filesystem) + outcome_cases "
